@@ -514,3 +514,29 @@ func init() {
 		m["github.com/buildbarn/bb-storage/pkg/otel.W3CTraceContextFromContext"] = func(fr *frame, args []value) value { return (*omap)(nil) }
 	})
 }
+
+// os.IsNotExist / os.IsExist on errno values (the file-system stubs of the
+// harnesses return syscall.Errno, as the real directories do).
+func init() {
+	extraIntrinsics = append(extraIntrinsics, func(m map[string]Intrinsic) {
+		errnoOf := func(v value) (uint64, bool) {
+			it, ok := v.(iface)
+			if !ok || it.t == nil {
+				return 0, false
+			}
+			if n, ok := it.t.(*types.Named); ok && n.Obj().Pkg() != nil && n.Obj().Pkg().Path() == "syscall" && n.Obj().Name() == "Errno" {
+				b, _ := intBits(it.v)
+				return b, true
+			}
+			return 0, false
+		}
+		m["os.IsNotExist"] = func(fr *frame, args []value) value {
+			e, ok := errnoOf(args[0])
+			return ok && e == 2 // ENOENT
+		}
+		m["os.IsExist"] = func(fr *frame, args []value) value {
+			e, ok := errnoOf(args[0])
+			return ok && (e == 17 || e == 39) // EEXIST, ENOTEMPTY
+		}
+	})
+}
